@@ -143,6 +143,47 @@ pub fn ring_far_case(ctx: &mut Ctx) -> StreamCase {
     StreamCase { z: w.finish(), zlib, tag: "valid:ring_far".into(), expect_len: plain.len(), prefix_of_valid: false, trail: 0 }
 }
 
+/// Valid streams whose matches sit right at the seam of a ring output buffer: the stored prefix ends a
+/// few bytes before a multiple of the ring size, then short and long matches whose SOURCE or whose
+/// DESTINATION straddles the seam (distance a little larger than the write position inside the lap).
+pub fn ring_seam_case(ctx: &mut Ctx) -> StreamCase {
+    use crate::sgen::{canonical_codes, fixed_lit_lens, write_tokens, BitWriter, Tok};
+    let zlib = ctx.rng.chance(1, 2);
+    let ring = *ctx.rng.pick(&[32768usize, 32768, 32768, 65536]);
+    let before = ctx.rng.range(0, 6);
+    let n = ring - before;
+    let mut plain: Vec<u8> = ctx.rng.bytes(n);
+    let mut w = BitWriter::new();
+    if zlib { w.put(0x78, 8); w.put(0x9c, 8); }
+    let mut pos = 0;
+    while pos < n {
+        let k = (n - pos).min(*ctx.rng.pick(&[65535usize, 40000, 20000]));
+        w.put(0, 1); w.put(0, 2); w.align();
+        w.put(k as u32, 16); w.put((!k as u32) & 0xFFFF, 16);
+        for &b in &plain[pos..pos + k] { w.put(b as u32, 8); }
+        pos += k;
+    }
+    let mut toks: Vec<Tok> = vec![];
+    let nm = ctx.rng.range(1, 5);
+    for _ in 0..nm {
+        for _ in 0..ctx.rng.range(0, 7) { let b = ctx.rng.byte(); plain.push(b); toks.push(Tok::Lit(b)); }
+        let len = *ctx.rng.pick(&[3usize, 3, 3, 4, 5, 8, 9, 100, 258]);
+        let p = plain.len() % ring; // write position inside the lap
+        let dist = if plain.len() >= ring { (p + *ctx.rng.pick(&[1usize, 2, 1, 2, 3, 4, len])).min(32768) } else { ctx.rng.range(1, 5) };
+        for _ in 0..len { let b = plain[plain.len() - dist]; plain.push(b); }
+        toks.push(Tok::Copy { len, dist });
+    }
+    for _ in 0..ctx.rng.range(0, 20) { let b = ctx.rng.byte(); plain.push(b); toks.push(Tok::Lit(b)); }
+    let ll = fixed_lit_lens(); let lc = canonical_codes(&ll);
+    let dl = vec![5u8; 32]; let dc = canonical_codes(&dl);
+    w.put(1, 1); w.put(1, 2);
+    write_tokens(&mut w, &toks, &ll, &lc, &dl, &dc);
+    w.align();
+    if zlib { let a = crate::sgen::adler32(&plain); for sh in [24, 16, 8, 0] { w.put((a >> sh) & 0xFF, 8); } }
+    ctx.count("ring_seam_cases");
+    StreamCase { z: w.finish(), zlib, tag: "valid:ring_seam".into(), expect_len: plain.len(), prefix_of_valid: false, trail: 0 }
+}
+
 pub fn replay(ctx: &mut Ctx) -> bool {
     if let Some(lines) = ctx.replay_lines.clone() {
         for l in lines { if let Some(rest) = l.strip_prefix("STREAM ") { let kv = crate::kv(rest);
@@ -165,6 +206,10 @@ pub fn run(ctx: &mut Ctx) {
     }
     for _ in 0..(12 * ctx.scale) {
         let sc = ring_far_case(ctx);
+        run_stream(ctx, &sc, 2, false);
+    }
+    for _ in 0..(16 * ctx.scale) {
+        let sc = ring_seam_case(ctx);
         run_stream(ctx, &sc, 2, false);
     }
 }
@@ -207,6 +252,10 @@ pub fn run_c04(ctx: &mut Ctx) {
         let sc = StreamCase { z, zlib: ctx.rng.chance(1, 2), tag: "random".into(), expect_len: 70000, prefix_of_valid: false, trail: 0 };
         run_stream(ctx, &sc, 1, false);
     }
+    // every zlib header with a correct check field (method, window size 2^8..2^23, preset-dictionary bit),
+    // flat and in rings smaller than, equal to and larger than the announced window
+    crate::c09::headers_with(ctx, &[0, 256, 32768, 65536, 131072, 1 << 20], true);
+    ctx.count("zlib_header_sweep");
 }
 
 /// C06: valid streams followed by 0..64 unrelated bytes.
@@ -239,5 +288,11 @@ pub fn run_c07(ctx: &mut Ctx) {
         let sc = if i % 3 == 2 { let (z, how) = sgen::mutate(&mut ctx.rng, &base.z); StreamCase { z, zlib: base.zlib, tag: format!("mut_{}", how), expect_len: base.expect_len + 70000, prefix_of_valid: false, trail: 0 } } else { base };
         let small = sc.z.len() <= 300;
         run_stream(ctx, &sc, 10, small);
+    }
+    // matches at the seam of the ring buffer, far matches in a ring: whole-window grants (fast copy
+    // routes) against small grants (byte-serial resumption routes)
+    for i in 0..(10 * ctx.scale) {
+        let sc = if i % 3 == 2 { ring_far_case(ctx) } else { ring_seam_case(ctx) };
+        run_stream(ctx, &sc, 3, false);
     }
 }
